@@ -27,12 +27,23 @@ def run_demo(d):
     env["BLOC_BUILD"] = BASE
     env["BLOC_SRC"] = "/repo"
     outs = []
-    for f in sorted(glob.glob(os.path.join(d, "demo*"))):
+    # the demonstration scripts take a source tree with its build in <tree>/_b: give them a view of /repo + the baseline build
+    view = "/tmp/seed-view"
+    shutil.rmtree(view, ignore_errors=True)
+    os.makedirs(view)
+    os.symlink(BASE, os.path.join(view, "_b"))
+    for name in os.listdir("/repo"):
+        if name not in ("_b", "_build", ".git"):
+            os.symlink(os.path.join("/repo", name), os.path.join(view, name))
+    files = sorted(glob.glob(os.path.join(d, "demo*")) + glob.glob(os.path.join(d, "build_and_run.sh")))
+    if any(f.endswith(".sh") for f in files):
+        files = [f for f in files if f.endswith(".sh")]
+    for f in files:
         try:
             if f.endswith(".bloc"):
                 p = subprocess.run([env["BLOC"], f], stdout=subprocess.PIPE, stderr=subprocess.STDOUT, env=env, timeout=60, cwd=d)
             elif f.endswith(".sh"):
-                p = subprocess.run(["sh", f, BASE], stdout=subprocess.PIPE, stderr=subprocess.STDOUT, env=env, timeout=300, cwd=d)
+                p = subprocess.run(["sh", f, view], stdout=subprocess.PIPE, stderr=subprocess.STDOUT, env=env, timeout=300, cwd=d)
             elif f.endswith(".cpp") or f.endswith(".c"):
                 exe = "/tmp/seed-demo-bin"
                 cc = ["g++", "-std=c++11"] if f.endswith(".cpp") else ["gcc"]
@@ -48,6 +59,27 @@ def run_demo(d):
         except subprocess.TimeoutExpired:
             outs.append((os.path.basename(f), "TIMEOUT"))
     return outs
+
+
+def needs_of(readme):
+    """the README's statement of what the change needs in order to manifest: the matching line, or the section under it"""
+    lines = readme.splitlines()
+    for i, line in enumerate(lines):
+        low = line.lower()
+        if "needed" in low or "manifest" in low or "needs" in low or "takes to show" in low:
+            text = line.replace("**What", "What").strip("# ").strip()
+            if True:
+                body = []
+                for l2 in lines[i + 1:]:
+                    if l2.lstrip().startswith("#") and body:
+                        break
+                    if not l2.strip() and body and sum(len(b) for b in body) > 200:
+                        break
+                    if l2.strip():
+                        body.append(l2.strip())
+                text = (text + " " + " ".join(body)).replace(":**", ":").strip()
+            return text[:900]
+    return ""
 
 
 def main(argv):
@@ -103,11 +135,7 @@ def main(argv):
         rp = os.path.join(d, "README.md")
         if os.path.exists(rp):
             readme = open(rp).read()
-        needs = ""
-        for line in readme.splitlines():
-            if "needed" in line.lower() or "manifest" in line.lower():
-                needs = line.strip("* ").strip()
-                break
+        needs = needs_of(readme)
         meta = {"property": res["property"], "breaks": readme.splitlines()[0].lstrip("# ").strip() if readme else name,
                 "needs_to_manifest": needs, "origin": "written by a fresh sub-agent given only the property text and a scratch worktree",
                 "confirmed": {"patch_applies_to_repo_head": True, "repository_tests_pass_with_change": res["repository_tests_pass_with_change"],
